@@ -190,12 +190,25 @@ func Validate(in any) (err error) {
 		return err
 	}
 
+	// a range boundary only means something as the right side of a RANGE expression,
+	// nothing else knows how to render one (and its ends would never be validated)
+	if e.Op != Range {
+		if isRangeBoundary(e.Left) || isRangeBoundary(e.Right) {
+			return fmt.Errorf("%v validation: a range boundary is only valid in a RANGE expression", e.Op)
+		}
+	}
+
 	err = Validate(e.Left)
 	if err != nil {
 		return err
 	}
 
 	return Validate(e.Right)
+}
+
+func isRangeBoundary(in any) bool {
+	_, ok := in.(*RangeBoundary)
+	return ok
 }
 
 // Column represents a column in sql. It will not be escaped by quotes in the sql rendering
